@@ -20,7 +20,13 @@ type C05Case struct {
 	Key2  string  `json:"key2,omitempty"`   // transpose: second key
 	Debug bool    `json:"debug,omitempty"`  // notation: both conversions run with --debug (diagnostics on stderr, same result)
 	ToOut bool    `json:"to_out,omitempty"` // notation: both conversions write to -o FILE instead of stdout
+	Uni   bool    `json:"uni,omitempty"`    // notation: accidentals are written with the Unicode signs in both texts
 }
+
+// uniStyle: canonical spelling, but every accidental as its Unicode sign.
+type uniStyle struct{ canonStyle }
+
+func (uniStyle) UnicodeAcc() bool { return true }
 
 // convRun runs one `text conv` the way the case says and returns it with the converted document in Stdout.
 func (c C05Case) convRun(text string, argv ...string) Result {
@@ -40,12 +46,16 @@ func (c C05Case) convRun(text string, argv ...string) Result {
 func checkC05(c C05Case) *Violation {
 	switch c.Kind {
 	case "notation":
-		deg := Render(DegreeSentence(c.Items), canonStyle{})
+		var st Style = canonStyle{}
+		if c.Uni {
+			st = uniStyle{}
+		}
+		deg := Render(DegreeSentence(c.Items), st)
 		ss, ok := SyllableSentence(c.Items, c.Key)
 		if !ok {
 			return vio("harness", "progression not expressible in %s", c.Key)
 		}
-		syl := Render(ss, canonStyle{})
+		syl := Render(ss, st)
 		a := c.convRun(deg, "text", "conv", "degree")
 		b := c.convRun(syl, "text", "conv", "syllable", "--key", c.Key)
 		for _, x := range []Result{a, b} {
@@ -233,7 +243,7 @@ func TestC05(t *testing.T) {
 			key := rapid.SampledFrom(theory.ListedKeys).Draw(t, "key")
 			o := ProgOpts{MaxItems: pick(8, 20), Syllable: true, KeyChanges: 15, Settings: 10, Texts: 15, RestPct: 20, ExoticSyms: true}
 			ps := genProgression(o, key).Draw(t, "prog")
-			c := C05Case{Kind: "notation", Items: ps, Key: key, Debug: coin(t, "with-debug", 15), ToOut: coin(t, "to-o-file", 15)}
+			c := C05Case{Kind: "notation", Items: ps, Key: key, Debug: coin(t, "with-debug", 15), ToOut: coin(t, "to-o-file", 15), Uni: coin(t, "unicode-accidentals", 20)}
 			nt, cls := c05Classes(ps, key)
 			if c.Debug {
 				cls = append(cls, "converted-with---debug")
